@@ -403,10 +403,36 @@ func c18Space(ts []*tree.Node, offsets []int) *core.Space {
 					fname := filepath.Join(c18Tmp, "doc."+fe.Name)
 					wrapped, _ := json.Marshal(map[string]interface{}{"flt": "not a number", "doc": doc.Generic()})
 					os.WriteFile(fname, wrapped, 0644)
-					fcfg, err := fe.WithFile(fname, os_.Opts...)
+					// the caller's option slice has spare capacity and is used again afterwards
+					shared := make([]ucfg.Option, len(os_.Opts), len(os_.Opts)+4)
+					copy(shared, os_.Opts)
+					fcfg, err := fe.WithFile(fname, shared...)
 					if err != nil {
 						res = core.Fail("file", "FILE-LOAD-FAILED "+fe.Name, err.Error())
 						return
+					}
+					if again, err := fe.New(b, shared...); err != nil {
+						res = core.Fail("file", "OPTIONS-CHANGED-BY-FILE-LOADER "+fe.Name, "NewConfig with the same option slice after NewConfigWithFile: "+err.Error())
+						return
+					} else {
+						var g2 string
+						if _, isList := raw.([]interface{}); isList {
+							var l []interface{}
+							again.Unpack(&l, shared...)
+							g2 = tree.CanonGoOpt(l, true)
+						} else {
+							m2, _ := unpackGeneric(again, shared...)
+							g2 = tree.CanonGoOpt(m2, true)
+						}
+						var bad struct {
+							V int `config:"v"`
+							A int `config:"a"`
+						}
+						e2 := again.Unpack(&bad, shared...)
+						if g2 != got || (e2 != nil && strings.Contains(e2.Error(), "source:")) {
+							res = core.Fail("file", "OPTIONS-CHANGED-BY-FILE-LOADER "+fe.Name, fmt.Sprintf("the caller's option slice was used for NewConfigWithFile; NewConfig with the same slice afterwards gives %s (before: %s), error text: %v", g2, got, e2))
+							return
+						}
 					}
 					var probe struct {
 						Flt int         `config:"flt"`
@@ -482,6 +508,7 @@ func c18Space(ts []*tree.Node, offsets []int) *core.Space {
 // sections written as nested objects.
 func c18Dotted() *core.Space {
 	docs := []map[string]interface{}{
+		{"hosts": []interface{}{}, "pair": []interface{}{}, "n": map[string]interface{}{"l": []interface{}{}}},
 		{"server.tls.port": 8443},
 		{"a.b.c.d": 1},
 		{"a.b": map[string]interface{}{"c.d": 1}},
